@@ -74,10 +74,11 @@ fn bytes_case(out: &mut Out, bytes: &[u8], full: bool) {
                 if full || scalar {
                     out.case("s.a.render", inp(), bytes_v(&d.to_ascii_vec()));
                 }
+                // the packed VALUE (blocks and length, as ==/Hash/Ord/serde see it) and the representation invariant
+                out.case("s.a.packed", inp(), ds_v(&d));
+                out.case("chk.a.inv", l(vec![ds_v(&d)]), b(true));
                 if full {
                     out.case("s.a.render", inp(), bytes_v(d.to_string().as_bytes()));
-                    out.case("s.a.packed", inp(), ds_v(&d));
-                    out.case("chk.a.inv", l(vec![ds_v(&d)]), b(true));
                     out.case("a.to_ascii", l(vec![ds_v(&d)]), bytes_v(&d.to_ascii_vec()));
                     out.case("a.to_string", l(vec![ds_v(&d)]), bytes_v(d.to_string().as_bytes()));
                 }
